@@ -62,7 +62,7 @@ func ms_strausExp(out *EdwardsPoint, staticScalars []*scalar.Scalar, staticPoint
 	return out
 }
 
-func msTerms(n int, tag string) ([]*scalar.Scalar, []*EdwardsPoint) {
+func msTerms(n int, tag string, g0 int) ([]*scalar.Scalar, []*EdwardsPoint) {
 	ss := make([]*scalar.Scalar, n)
 	ps := make([]*EdwardsPoint, n)
 	// the first two terms are objects of their own, the remaining ones share a third: n only matters for the sizes
@@ -72,6 +72,11 @@ func msTerms(n int, tag string) ([]*scalar.Scalar, []*EdwardsPoint) {
 		if i < 2 || sharedS == nil {
 			s := secretScalar(tag + "s" + nafItoa(i)) // arbitrary (and, for the constant-time entry point, secret) scalars
 			p := any_EdwardsPoint(tag + "P" + nafItoa(i))
+			g := g0 + i
+			if g > 2 {
+				g = 2
+			}
+			setK(p, kGen(g)) // a formal generator: the terms are compared through the sum they denote
 			ss[i], ps[i] = s, p
 			if i >= 2 {
 				sharedS, sharedP = s, p
@@ -81,6 +86,25 @@ func msTerms(n int, tag string) ([]*scalar.Scalar, []*EdwardsPoint) {
 		}
 	}
 	return ss, ps
+}
+
+func msScalarInt(s *scalar.Scalar) verif.Int {
+	var b [32]byte
+	_ = s.ToBytes(b[:])
+	return verif.IntLE(b[:])
+}
+
+// msSum: the formal sum  sum_i s_i * P_i  of a list of terms over the Z-module ghost. A dispatcher may legitimately
+// drop a term whose scalar is zero (or reorder terms): what must be preserved is the sum, not the list.
+func msSum(ss []*scalar.Scalar, ps []*EdwardsPoint) kvec {
+	acc := kZero()
+	if len(ss) != len(ps) {
+		return kvec{verif.IntK(-1), verif.IntK(-1), verif.IntK(-1)}
+	}
+	for i := range ss {
+		acc = kAdd(acc, kScaleI(getK(ps[i]), msScalarInt(ss[i])))
+	}
+	return acc
 }
 
 func sameScalars(a, b []*scalar.Scalar) bool {
@@ -116,7 +140,7 @@ var msSizes = []int{0, 1, 2, 3, 189, 190, 191}
 func vh_C08_multiscalar_dispatch() {
 	msReset()
 	n := msSizes[verif.Case("sz")]
-	ss, ps := msTerms(n, "c")
+	ss, ps := msTerms(n, "c", 0)
 	p := &EdwardsPoint{}
 	p.MultiscalarMul(ss, ps)
 	verif.Assert(msCount == 1 && msWhich == 1 && sameScalars(msS, ss) && samePoints(msP, ps), "every (scalar, point) pair reaches the constant-time routine")
@@ -126,7 +150,7 @@ func vh_C08_multiscalar_dispatch() {
 func vh_L2_multiscalar_dispatch() {
 	msReset()
 	n := msSizes[verif.Case("sz")]
-	ss, ps := msTerms(n, "d")
+	ss, ps := msTerms(n, "d", 0)
 	p := &EdwardsPoint{}
 	var r *EdwardsPoint
 	if verif.Case("api") == 0 {
@@ -137,12 +161,17 @@ func vh_L2_multiscalar_dispatch() {
 		verif.Assert(msCount == 1 && (msWhich == 2 || msWhich == 3), "MultiscalarMulVartime: exactly one call of a variable-time routine")
 	}
 	verif.Assert(r == p && msOut == p, "the receiver is the output and is returned")
-	if msWhich == 3 {
-		verif.Assert(len(msS) == 0 && len(msP) == 0, "Pippenger: no static terms")
-		verif.Assert(sameScalars(msS2, ss) && samePoints(msP2, ps), "every (scalar, point) pair is passed on, in order, unfiltered")
-	} else {
+	if verif.Case("api") == 0 {
+		// constant time: the list itself is passed on (dropping or reordering terms by value would be a leak)
 		verif.Assert(sameScalars(msS, ss) && samePoints(msP, ps), "every (scalar, point) pair is passed on, in order, unfiltered")
+		return
 	}
+	want := msSum(ss, ps)
+	got := msSum(msS, msP)
+	if msWhich == 3 {
+		got = kAdd(got, msSum(msS2, msP2))
+	}
+	verif.Assert(kEq(got, want), "the terms handed to the multiplication routine denote the caller's sum  sum_i s_i * P_i  (no term with a non-zero scalar is lost or altered)")
 }
 
 var msSplit = [][2]int{{0, 0}, {1, 1}, {2, 0}, {0, 2}, {95, 95}, {95, 96}, {190, 1}, {1, 190}, {3, 2}}
@@ -157,9 +186,14 @@ func vh_L2_multiscalar_dispatch_expanded() {
 	var sharedX *ExpandedEdwardsPoint
 	for i := 0; i < ns; i++ {
 		if i < 2 || sharedS == nil {
-			s := &scalar.Scalar{}
+			s := secretScalar("xs" + nafItoa(i))
 			x := &ExpandedEdwardsPoint{}
 			x.point = *any_EdwardsPoint("x" + nafItoa(i))
+			g := 0
+			if i > 0 {
+				g = 2
+			}
+			setK(&x.point, kGen(g))
 			x.inner = &projectiveNielsPointNafLookupTable{}
 			ss[i], xs[i] = s, x
 			if i >= 2 {
@@ -169,25 +203,29 @@ func vh_L2_multiscalar_dispatch_expanded() {
 			ss[i], xs[i] = sharedS, sharedX
 		}
 	}
-	ds, dp := msTerms(nd, "e")
+	ds, dp := msTerms(nd, "e", 1)
 	p := &EdwardsPoint{}
 	r := p.ExpandedMultiscalarMulVartime(ss, xs, ds, dp)
 	verif.Assert(msCount == 1 && (msWhich == 3 || msWhich == 4), "exactly one call of a variable-time routine")
 	verif.Assert(r == p && msOut == p, "the receiver is the output and is returned")
-	verif.Assert(sameScalars(msS, ss) && sameScalars(msS2, ds) && samePoints(msP2, dp), "static scalars, dynamic scalars and dynamic points are passed on, in order, unfiltered")
-	if msWhich == 4 {
-		ok := len(msXP) == ns
-		for i := 0; ok && i < ns; i++ {
-			ok = msXP[i] == xs[i]
-		}
-		verif.Assert(ok, "Straus: the expanded static points are passed on, in order")
-	} else {
-		ok := len(msP) == ns
-		for i := 0; ok && i < ns; i++ {
-			ok = msP[i] == &xs[i].point
-		}
-		verif.Assert(ok, "Pippenger: static term i is the point of expanded key i")
+	// the caller's sum: static terms are the points of the expanded keys
+	want := msSum(ds, dp)
+	for i := 0; i < ns; i++ {
+		want = kAdd(want, kScaleI(getK(&xs[i].point), msScalarInt(ss[i])))
 	}
+	got := msSum(msS2, msP2)
+	if msWhich == 4 {
+		if len(msXP) != len(msS) {
+			got = kvec{verif.IntK(-1), verif.IntK(-1), verif.IntK(-1)}
+		} else {
+			for i := range msXP {
+				got = kAdd(got, kScaleI(getK(&msXP[i].point), msScalarInt(msS[i])))
+			}
+		}
+	} else {
+		got = kAdd(got, msSum(msS, msP))
+	}
+	verif.Assert(kEq(got, want), "the static and dynamic terms handed to the multiplication routine denote the caller's sum (scalar i stays with point i across the static/dynamic split; no term with a non-zero scalar is lost)")
 }
 
 // ---- Ristretto wrappers: the Edwards entry points receive the inner points, in order ----
